@@ -92,6 +92,66 @@ def run_reader(p, stream, cfg, k):
     return out, rd
 
 
+def live_readers(p, jobs, interleave=True, maxreads=200):
+    """jobs: list of (data, cfg, segs_or_None).  ALL readers are constructed first (each over its own stream double: a file
+    double, or a fake socket when segs is given), then read round-robin (one read() each in turn) until every one has ended;
+    with interleave=False each reader is constructed and drained alone, one after the other.  Returns, per job, the list of
+    views ('Y', raw, everything observable on the parsed object | None) | ('E',) | ('R', tag) | ('F', repr)."""
+    def mk(job):
+        data, (v, q, l, pa), segs = job
+        st = FStream(data) if segs is None else FakeSocket(list(segs))
+        return p.RTCMReader(st, validate=v, quitonerror=q, labelmsm=l, parsed=pa)
+
+    def one(rd):
+        try:
+            with vlib.watchdog(8):
+                raw, parsed = rd.read()
+            if raw is None and parsed is None:
+                return ("E",)
+            return ("Y", raw, None if parsed is None else full_obs(parsed))
+        except Exception as e:  # noqa
+            t = vlib.exc_tag(e)
+            return ("R", t) if t != 5 else ("F", repr(e))
+    views = [[] for _ in jobs]
+    if interleave:
+        rds = [mk(j) for j in jobs]
+        live = list(range(len(jobs)))
+        n = 0
+        while live and n < maxreads:
+            n += 1
+            for i in list(live):
+                r = one(rds[i])
+                views[i].append(r)
+                if r[0] in "EF":
+                    live.remove(i)
+    else:
+        for i, j in enumerate(jobs):
+            rd = mk(j)
+            for _ in range(maxreads):
+                r = one(rd)
+                views[i].append(r)
+                if r[0] in "EF":
+                    break
+    return views
+
+
+def check_live(em, p, prop, jobs, what):
+    """several live readers with different options / streams, read in turn, must each behave exactly as when used alone"""
+    together = live_readers(p, jobs, True)
+    alone = live_readers(p, jobs, False)
+    em.direct_evaluations += len(jobs)
+    for i, (a_, b_) in enumerate(zip(together, alone)):
+        if a_ != b_:
+            data, cfg, segs = jobs[i]
+            k = next((x for x in range(min(len(a_), len(b_))) if a_[x] != b_[x]), min(len(a_), len(b_)))
+            em.violation("%s: reader #%d (validate=%r mode=%r labelmsm=%r parsed=%r) behaves differently when %d other readers with other options are alive and read in turn than when it is used alone (%s; first difference at read %d)"
+                         % (prop, i, cfg[0], cfg[1], cfg[2], cfg[3], len(jobs) - 1, what, k),
+                         {"live_readers": [{"stream": d.hex(), "cfg": [int(c[0]), int(c[1]), int(c[2]), bool(c[3])], "recv_events": None if sg is None else [x.hex() for x in sg]} for d, c, sg in jobs]},
+                         {"reader": i, "read": k})
+            return False
+    return True
+
+
 def ser_results(results):
     b = b""
     for h, r in results:
@@ -492,6 +552,38 @@ def main():
                     res, _ = run_reader(p, FStream(data), cfg, 8)
                     check_C01(em, data, res, cfg, "CRC-consistent frame with reserved header bit %d set" % bit)
                     em.count("crafted.reservedbit")
+        # direct only: a valid frame F = A + B whose two halves are separated by other material -- NESTED false frames (an outer
+        # damaged frame whose extent holds an inner damaged frame ending in A, then left-over bytes R), a damaged frame, foreign
+        # traffic.  F is not a slice of the stream: a reader that pushes rejected bytes back, resynchronises inside frames or
+        # skips foreign traffic inside a frame would deliver it.
+        def nosync(n):
+            return bytes(rng.choice([x for x in range(256) if x not in (0xD3, 0xB5, 0x24, 0x0A)]) for _ in range(n))
+        pls = [pl for pl in valid_payloads(tabs, rng, 12 if thorough else 6) if 8 <= len(pl) <= 120]
+        for i_, pl in enumerate(pls):
+            F = gen.frame(pl)
+            g1, g2 = gen.frame(pls[(i_ + 1) % len(pls)]), gen.frame(pls[(i_ + 2) % len(pls)])
+            for cut in sorted({3, 4, 6, len(F) // 2, len(F) - 3, len(F) - 1}):
+                if not 3 <= cut < len(F):
+                    continue
+                A, B = F[:cut], F[cut:]
+                X, R = nosync(rng.randrange(0, 6)), nosync(rng.randrange(1, 9))
+                inner = bytes([0xD3, 0, len(X) + len(A) - 3 if len(X) + len(A) >= 3 else 0]) + X + A      # extent = exactly itself
+                outer = bytes([0xD3, 0, len(inner) + len(R) - 3]) + inner + R                                # extent = header + inner + R
+                dmg = bytearray(g2)
+                dmg[5] ^= 0x10
+                variants = {"nested false frames": g1 + outer + B + g2,
+                            "damaged frame inside": g1 + A + bytes(dmg) + B + g2,
+                            "NMEA inside": g1 + A + b"$GNGGA,1,2*00\r\n" + B + g2,
+                            "UBX inside": g1 + A + b"\xb5\x62\x01\x02\x02\x00\xaa\xbb\x01\x02" + B + g2,
+                            "noise inside": g1 + A + R + B + g2}
+                for nm, data in variants.items():
+                    if F in data:
+                        continue
+                    for q in (0, 1):
+                        cfg = (1, q, 1, True)
+                        res, _ = run_reader(p, FStream(data), cfg, 10)
+                        check_C01(em, data, res, cfg, "valid frame split in two by other material (%s, cut at %d)" % (nm, cut))
+                        em.count("crafted.split." + nm.split()[0])
         em.samples = [{"stream_items": "hostile mix: frames, damaged, reserved-bit headers, NMEA, UBX, sync-dense noise, truncated tail", "faults": "none / single at every call / random"}]
 
     elif prop == "C02":
@@ -694,13 +786,15 @@ def main():
             lg.setLevel(logging.DEBUG)
             try:
                 got = [raw for raw, _ in p.RTCMReader(io.BytesIO(data), quitonerror=1)]
+            except Exception as e:  # noqa  (an exception out of the iterator in log mode is itself the violation)
+                got = repr(e)
             finally:
                 lg.removeHandler(hh)
                 lg.setLevel(old)
             em.direct_evaluations += 1
             if got != good or len(rec) != nd:
-                em.violation("C05: log mode via logger: %d frames / %d records for %d good / %d damaged" % (len(got), len(rec), len(good), nd),
-                             {"stream": data.hex(), "damaged": dmg}, {})
+                em.violation("C05: log mode via logger: %s frames / %d records for %d good / %d damaged" % (
+                    len(got) if isinstance(got, list) else got, len(rec), len(good), nd), {"stream": data.hex(), "damaged": dmg}, {})
         em.samples = [{"frames": len(frames), "damaged": dmg}]
 
     elif prop == "C17":
@@ -781,6 +875,10 @@ def main():
                     m_b = p.RTCMReader.parse(fb_bad, validate=0)
                     if m_b.payload != b_pl or m_a.payload != a_pl:
                         em.violation("C17: static parse with validate=0 returns another frame's message", {"frame": fb_bad.hex(), "previous": fa.hex()}, {})
+            # several readers alive at once, configured differently, read in turn: each keeps ITS options
+            if it % 2 == 0:
+                check_live(em, p, "C17", [(bad, (0, 0, lab_, True), None), (bad, (1, 0, lab_, True), None), (bad, (1, 0, 3 - lab_, False), None),
+                                          (data, (0, 1, 3 - lab_, True), None), (bad, (1, 2, lab_, True), None)], "wrong-checksum copies of one stream")
             # static parser
             for f, ok, fl in zip(frames, okp, flipped):
                 if not ok:
@@ -945,7 +1043,39 @@ def main():
                                      {"stream": data.hex(), "recv_events": [x.hex() for x in segs]}, {})
                     if kind == "sock" and [v for v in view if v[0] == "Y"] != [v for v in ref[(si, "file")] if v[0] == "Y"]:
                         em.violation("C13: socket reader and file reader disagree on the same bytes", {"stream": data.hex(), "recv_events": [x.hex() for x in segs]}, {})
-        em.samples = [{"note": "the same streams through fresh file and socket readers, three shuffled passes"}]
+        # all the readers alive at the same time, with different options, read in turn
+        jobs = []
+        for si, (data, items) in enumerate(streams[:6]):
+            n_ = len(data)
+            cuts = sorted(rng.sample(range(1, n_), min(n_ - 1, 3)))
+            segs = [data[a_:b_] for a_, b_ in zip([0] + cuts, cuts + [n_])]
+            jobs.append((data, (si % 2, si % 3, 1 + si % 2, si % 4 != 3), segs if si % 2 else None))
+        if jobs:
+            check_live(em, p, "C13", jobs, "different streams")
+        em.samples = [{"note": "the same streams through fresh file and socket readers, three shuffled passes; several live readers read in turn"}]
+
+    elif prop == "C16":
+        # the reader passes the label option through to every parse: several readers with different label options alive at once and
+        # read in turn each keep their own option; what a reader returns equals the constructor called with that option
+        for it in range(12 if thorough else 4):
+            data, items = mixed_stream(tabs, rng, rng.randrange(3, 7), ["msm", "msm", "msm", "frame", "nmea"], None)
+            if len(data) > 12000:
+                continue
+            n_ = len(data)
+            cuts = sorted(rng.sample(range(1, n_), min(n_ - 1, 4)))
+            segs = [data[a_:b_] for a_, b_ in zip([0] + cuts, cuts + [n_])]
+            jobs = [(data, (1, 0, 1, True), None), (data, (1, 0, 2, True), None), (data, (1, 1, 1, True), segs), (data, (0, 0, 2, True), None), (data, (1, 0, 1, True), None)]
+            if it % 2:
+                jobs.reverse()
+            check_live(em, p, "C16", jobs, "one MSM stream under both label options")
+            for lab in (1, 2):
+                for v_ in live_readers(p, [(data, (1, 0, lab, True), None)], False)[0]:
+                    if v_[0] == "Y" and v_[2] is not None:
+                        em.direct_evaluations += 1
+                        if full_obs(p.RTCMMessage(payload=v_[1][3:-3], labelmsm=lab)) != v_[2]:
+                            em.violation("C16: a reader with labelmsm=%d returns a message that differs from the constructor called with that option" % lab,
+                                         {"stream": data.hex(), "cfg": [1, 0, lab, True], "frame": v_[1].hex()}, {})
+        em.samples = [{"note": "MSM streams through several live readers with label options 1 / 2, read in turn; reader result == constructor with the same option"}]
 
     elif prop == "C12":
         # the reader over a CHUNKED socket: a mixed stream cut into chunks of random sizes, sent in random segments
